@@ -249,6 +249,8 @@ def _set_week(pendulum, ws):
     """The process-wide first day of the week: none of the navigation results may depend on it."""
     c12._set_week(pendulum, ws)
     _WS[0] = ws
+    import calendar as _calendar
+    _calendar.setfirstweekday(int(ws))     # the stdlib's own process-wide first weekday travels with it
 
 
 def run_shard(shard):
